@@ -15,12 +15,21 @@ states the *protocol* the property really depends on, independent of how an impl
   initial value) and `r` is a value **the same operation read from the limit cell earlier** (a load, a failed
   compare-exchange, or — for a read-modify-write — the value it replaces);
 * `limit()`, `record_dropped()`, the accessors and `clone()` write nothing; `limit()` returns a value it read from
-  the cell;
+  the cell; **every other result an operation reports is justified by the trace too** (the End markers carry them):
+  `min_limit()` / `max_limit()` return the configured bounds, `in_flight()` a value the operation read from the in-flight
+  cell, `clone()` (bare controller) starts from a limit the operation read from the limit cell; an acquisition reports
+  "admitted" iff it wrote the counter. `thOuts` re-derives from the End markers what every thread reports (`th <i> …`), so
+  that a round whose step sequence no longer matches the transcription is still compared on its thread outputs;
 * (rounds of threads on clones of the *service*) every write to the service's `in_flight` cell is one atomic
   read-modify-write: `+1`, at most once, inside a `poll_ready`+`call` that is admitted iff it wrote; `−1`, exactly once,
   from a value ≥ 1, inside an operation that ends a call the thread holds (completion, failure, panic, drop).
 
-`checkTrace` decides this for one observed trace (the harness records, through the observer hook of the
+* (the same rounds) every `poll_ready`+`call` that counts itself in has read, BEFORE that, a limit `r` from the limit cell
+  and a count `n` from the counter with `n < r`; every one that is refused has read an `r` and an `n` with `n ≥ r`
+  (`dstep` / `checkTraceD`, below): the readiness clauses in the form that can be judged when check and call are
+  separate atomic steps.
+
+`checkTrace` (`checkTraceD` with the readiness decisions) decides this for one observed trace (the harness records, through the observer hook of the
 `verif-hooks` atomics, every hooked atomic operation with the value before and after it, plus the begin / end of
 every API call, and finds out which cell is the limit cell by calling `limit()` once — the cell that call loads —
 and `in_flight()` once for the counter). The theorems in `TR.Lemmas.LimitTrace` / `TR.Props.C13` hold for **every**
@@ -51,11 +60,21 @@ inductive Role
   | rel        -- ends a call the thread holds: `−1`, exactly once
 deriving DecidableEq, Repr
 
+/-- what else an operation reports (beside `limit()`'s value and an acquisition's verdict) -/
+inductive Acc
+  | none
+  | minL       -- `min_limit()`: the configured minimum
+  | maxL       -- `max_limit()`: the configured maximum
+  | inFl       -- `in_flight()`: a value it read from the in-flight counter
+  | clone      -- `AimdController::clone()`: the limit it read; the clone then records one success of its own
+deriving DecidableEq, Repr
+
 /-- an API call as the markers of the trace name it -/
 structure TrOp where
   fb   : Fb := .none
   role : Role := .none
   rd   : Bool := false      -- `limit()`: returns a value it read from the limit cell
+  acc  : Acc := .none
 deriving DecidableEq, Repr
 
 /-- one entry of an observed trace -/
@@ -73,6 +92,7 @@ structure OpenOp where
   op     : TrOp
   reads  : List Nat := []     -- the values it has read from the limit cell so far
   wroteI : Bool := false      -- it has written the in-flight counter
+  readsI : List Nat := []     -- the values it has read from the in-flight counter so far
 deriving DecidableEq, Repr
 
 structure CS where
@@ -167,6 +187,31 @@ def infWrite (cs : CS) (tid : Nat) (k : AKind) (new : Nat) : Option CS :=
                        opens := setOpen cs.opens { o with wroteI := true } }
       else none
 
+/-- a read of the in-flight counter (a load, a failed compare-exchange) -/
+def infRead (cs : CS) (tid v : Nat) : CS :=
+  match findOpen cs.opens tid with
+  | none => cs
+  | some o => { cs with opens := setOpen cs.opens { o with readsI := v :: o.readsI } }
+
+/-- the other results: the accessors report the configured bounds, `in_flight()` a value the call read from the counter,
+the bare controller's `clone()` a limit the call read from the limit cell (the `Algorithm` types have no `clone()`: the
+operation reports nothing there) -/
+def accCheck (cfg : Cfg) (o : OpenOp) (acc : Acc) (res : Option Nat) : Bool :=
+  match acc with
+  | .none => true
+  | .minL => res == some cfg.min
+  | .maxL => res == some cfg.max
+  | .inFl =>
+    match res with
+    | some v => o.readsI.contains v
+    | none => false
+  | .clone =>
+    if cfg.ctl then
+      match res with
+      | some v => o.reads.contains v
+      | none => false
+    else res == none
+
 /-- the value a `limit()` call returns was read from the limit cell by that call -/
 def retCheck (o : OpenOp) (res : Option Nat) (rets : List Nat) : Option (List Nat) :=
   if o.op.rd then
@@ -175,11 +220,12 @@ def retCheck (o : OpenOp) (res : Option Nat) (rets : List Nat) : Option (List Na
     | none => none
   else some rets
 
-def finOp (cs : CS) (tid : Nat) (op : TrOp) (res : Option Nat) : Option CS :=
+def finOp (cfg : Cfg) (cs : CS) (tid : Nat) (op : TrOp) (res : Option Nat) : Option CS :=
   match findOpen cs.opens tid with
   | none => none
   | some o =>
     if o.op ≠ op then none else
+    if accCheck cfg o op.acc res = false then none else
     match retCheck o res cs.rets with
     | none => none
     | some rets =>
@@ -206,7 +252,7 @@ def cstep (cfg : Cfg) (cs : CS) (it : Item) : Option CS :=
       | .none => some cs1
       | .acq => some { cs1 with begunA := cs.begunA + 1, openAN := cs.openAN + 1 }
       | .rel => some { cs1 with begunR := cs.begunR + 1, openRN := cs.openRN + 1 }
-  | .fin tid op res => finOp cs tid op res
+  | .fin tid op res => finOp cfg cs tid op res
   | .lim tid k old new ok =>
     if old ≠ cs.lim then none                         -- the cell did not hold what the trace says it held
     else if ok = false ∨ k = .load then
@@ -214,7 +260,7 @@ def cstep (cfg : Cfg) (cs : CS) (it : Item) : Option CS :=
     else limWrite cfg cs tid k new
   | .inf tid k old new ok =>
     if old ≠ cs.inf then none
-    else if ok = false ∨ k = .load then (if new = old then some cs else none)
+    else if ok = false ∨ k = .load then (if new = old then some (infRead cs tid old) else none)
     else infWrite cs tid k new
   | .oth => some cs
 
@@ -241,6 +287,86 @@ def CS.quiet (cs : CS) : Bool :=
 def checkTrace (cfg : Cfg) (v0 i0 : Nat) (tr : List Item) : Option CS :=
   match crun cfg (cinit v0 i0) tr with
   | some cs => if cs.quiet then some cs else none
+  | none => none
+
+/-! ## the readiness decisions of concurrent callers, judged on the trace
+
+`poll_ready` reads the limit and the in-flight counter and compares; `call` counts the call in later. Other threads run in
+between, so "refused iff `limit` calls are in flight" cannot be judged against the state at the `fetch_add`. What can be
+judged, however an implementation sequences the loads: an acquisition that **counts itself in** must by then have read a
+limit `r` (from the limit cell) and a count `n` (from the counter) with `n < r`; an acquisition that is **refused** must
+have read an `r` and an `n` with `n ≥ r`. `dstep` runs beside `cstep` (on the checker's state BEFORE the entry) and keeps
+the witnesses; `checkTraceD` accepts a trace iff both do. -/
+
+/-- one readiness decision: the limit and the count the acquisition had read -/
+structure Dec where
+  admitted : Bool
+  lim      : Nat
+  seen     : Nat
+deriving DecidableEq, Repr
+
+/-- a limit read and a count read with `count < limit` -/
+def findBelow (reads readsI : List Nat) : Option (Nat × Nat) :=
+  reads.findSome? fun r => (readsI.find? fun n => decide (n < r)).map fun n => (r, n)
+
+/-- … with `count ≥ limit` -/
+def findAtOrAbove (reads readsI : List Nat) : Option (Nat × Nat) :=
+  reads.findSome? fun r => (readsI.find? fun n => decide (n ≥ r)).map fun n => (r, n)
+
+structure DS where
+  pend : List (Nat × (Nat × Nat)) := []     -- acquisitions that have counted themselves in: thread ↦ the witness (limit, count)
+  decs : List Dec := []                      -- ghost: every decision so far, in the order the acquisitions returned
+deriving Repr
+
+def dropPend (l : List (Nat × (Nat × Nat))) (tid : Nat) : List (Nat × (Nat × Nat)) := l.filter fun p => p.1 != tid
+
+def dstep (cs : CS) (ds : DS) (it : Item) : Option DS :=
+  match it with
+  | .inf tid k _ _ ok =>
+    if ok = false ∨ k = .load ∨ k = .store then some ds else
+    match findOpen cs.opens tid with
+    | none => some ds
+    | some o =>
+      if o.op.role = .acq then
+        match findBelow o.reads o.readsI with
+        | some p => some { ds with pend := (tid, p) :: dropPend ds.pend tid }
+        | none => none                       -- counted in without having seen fewer calls than a limit
+      else some ds
+  | .fin tid op _ =>
+    if op.role = .acq then
+      match findOpen cs.opens tid with
+      | none => some ds
+      | some o =>
+        if o.wroteI then
+          match lookup ds.pend tid with
+          | some p => some { pend := dropPend ds.pend tid, decs := ds.decs ++ [{ admitted := true, lim := p.1, seen := p.2 }] }
+          | none => none
+        else
+          match findAtOrAbove o.reads o.readsI with
+          | some p => some { ds with decs := ds.decs ++ [{ admitted := false, lim := p.1, seen := p.2 }] }
+          | none => none                     -- refused without having seen `limit` calls in flight
+    else some ds
+  | _ => some ds
+
+def crunD (cfg : Cfg) (cs : CS) (ds : DS) : List Item → Option (CS × DS)
+  | [] => some (cs, ds)
+  | it :: tl =>
+    match cstep cfg cs it, dstep cs ds it with
+    | some cs', some ds' => crunD cfg cs' ds' tl
+    | _, _ => none
+
+def cfirstBadD (cfg : Cfg) (cs : CS) (ds : DS) (i : Nat) : List Item → Option Nat
+  | [] => none
+  | it :: tl =>
+    match cstep cfg cs it, dstep cs ds it with
+    | some cs', some ds' => cfirstBadD cfg cs' ds' (i + 1) tl
+    | _, _ => some i
+
+/-- a trace is accepted with its readiness decisions: every entry follows the protocol, every acquisition's verdict is
+justified by what it had read, every call has returned -/
+def checkTraceD (cfg : Cfg) (v0 i0 : Nat) (tr : List Item) : Option (CS × DS) :=
+  match crunD cfg (cinit v0 i0) {} tr with
+  | some (cs, ds) => if cs.quiet then some (cs, ds) else none
   | none => none
 
 /-! ## what a trace shows, read off the trace alone (independent of the checker) -/
@@ -302,8 +428,9 @@ def finalLim (v0 : Nat) : List Item → Nat
 
 `kn0,n1;b9:L;a9,l,n0,4,4,1;e9:L:4;b0:S1048576;a0,l,n0,4,4,1;a0,s,n0,4,5,1;e0:S1048576:-` — the first entry names the
 limit cell and the in-flight cell (`-`: none) as the harness's probes found them. Operation codes: `S<ns>` `F` `X` `L`
-`m` `N<k>` `R` `K` (feedback programs), `A` (acquire), `Cs` `Cf` `Cp` (complete a held call: ok / error / panic), `C-` `D-`
-(nothing held), `D+` (drop a held call), `I` (`in_flight()`). -/
+`m` `M` `N<k>` `R` `K` (feedback programs), `A` (acquire), `Cs` `Cf` `Cp` (complete a held call: ok / error / panic), `C-` `D-`
+(nothing held), `D+` (drop a held call), `I` (`in_flight()`). The End marker carries what the call reported: `L`, `m`, `M`, `I` the
+value, `K` the clone's first limit, `A` 1 / 0, everything else `-`. -/
 
 def parseKind (s : String) : AKind :=
   if s = "l" then .load else if s = "s" then .store else if s = "c" then .cas else .rmw
@@ -314,10 +441,11 @@ def parseTrOp (s : String) : Option TrOp :=
   | ['F'] => some { fb := .fail }
   | ['X'] => some {}
   | ['L'] => some { rd := true }
-  | ['m'] => some {}
+  | ['m'] => some { acc := .minL }
+  | ['M'] => some { acc := .maxL }
   | 'N' :: d => (String.ofList d).toNat?.map fun n => { fb := .succs n }
   | ['R'] => some { fb := .reset }
-  | ['K'] => some {}
+  | ['K'] => some { acc := .clone }
   | ['A'] => some { role := .acq }
   | ['C', 's'] => some { fb := .succ 0, role := .rel }
   | ['C', 'f'] => some { fb := .fail, role := .rel }
@@ -325,7 +453,7 @@ def parseTrOp (s : String) : Option TrOp :=
   | ['C', '-'] => some {}
   | ['D', '+'] => some { role := .rel }
   | ['D', '-'] => some {}
-  | ['I'] => some {}
+  | ['I'] => some { acc := .inFl }
   | _ => none
 
 def parseItem (lc ic : String) (s : String) : Option Item :=
@@ -382,6 +510,28 @@ def firstInf : List Item → Option Nat
   | .inf _ _ old _ _ :: _ => some old
   | _ :: tl => firstInf tl
 
+/-! ## what every thread reports, re-derived from the End markers of an accepted trace -/
+
+/-- what one returned call contributes to its thread's output line (`th <i> …`): a refused acquisition `x`, `limit()` /
+`min_limit()` / `max_limit()` / `in_flight()` their value, the bare controller's `clone()` the clone's limit before and after
+the one success it records on it -/
+def finOuts (cfg : Cfg) (op : TrOp) (res : Option Nat) : List String :=
+  if op.role = .acq then (if res = some 1 then [] else ["x"])
+  else
+    match res with
+    | none => []
+    | some v =>
+      if op.acc = .clone then [toString v, toString (aimdSuccNew cfg v)]
+      else if op.rd ∨ op.acc ≠ .none then [toString v] else []
+
+/-- the output of thread `tid` -/
+def thOuts (cfg : Cfg) (tid : Nat) : List Item → List String
+  | [] => []
+  | .fin t op res :: tl => if t = tid then finOuts cfg op res ++ thOuts cfg tid tl else thOuts cfg tid tl
+  | _ :: tl => thOuts cfg tid tl
+
+def renderOutStrs (l : List String) : String := if l.isEmpty then "none" else ",".intercalate l
+
 /-- the verdict line: the harness claims `trace-ok`; the checker confirms or names the first rejected entry.
 `expect`: the value the limit cell must hold at the beginning (`none`: whatever the probe found, provided it is within
 the bounds). Returns the verdict and the value the limit cell holds afterwards. -/
@@ -394,12 +544,26 @@ def traceVerdict (cfg : Cfg) (expect : Option Nat) (s : String) : String × Opti
     | some v0 =>
       if (expect.isSome ∧ expect ≠ some v0) ∨ ¬ (cfg.min ≤ v0 ∧ v0 ≤ cfg.max) then ("trace-bad start", none) else
       let i0 := (firstInf tr).getD 0
-      match cfirstBad cfg (cinit v0 i0) 0 tr with
+      match cfirstBadD cfg (cinit v0 i0) {} 0 tr with
       | some i => (s!"trace-bad {i}", none)
       | none =>
-        match checkTrace cfg v0 i0 tr with
-        | some cs => ("trace-ok", some cs.lim)
+        match checkTraceD cfg v0 i0 tr with
+        | some (cs, _) => ("trace-ok", some cs.lim)
         | none => ("trace-bad unfinished", none)
+
+/-- the protocol-level lines of one round / warm-up: the verdict; and for an accepted trace what each of the `nth` threads
+reported (`trace-th <i> …`, from the End markers the checker has validated) and the values the round left in the limit cell
+and — if the trace names an in-flight cell — in the counter (`trace-end <limit> [<in_flight>]`). The harness logs the same
+lines from what its threads returned and from `limit()` / `in_flight()` after the round. -/
+def traceReport (cfg : Cfg) (expect : Option Nat) (nth : Nat) (s : String) : List String × Option Nat :=
+  let v := traceVerdict cfg expect s
+  match v.2, parseTrace s with
+  | some lim, some tr =>
+    let i0 := (firstInf tr).getD 0
+    let hasInf := ((s.splitOn ";").headD "").endsWith ",-" == false
+    (v.1 :: (List.range nth).map (fun i => s!"trace-th {i} {renderOutStrs (thOuts cfg i tr)}") ++
+      [if hasInf then s!"trace-end {lim} {finalInf i0 tr}" else s!"trace-end {lim}"], v.2)
+  | _, _ => ([v.1], v.2)
 
 /-- the step model's machine plus the protocol verdict on the observed value-level traces (`@tr=` on the `warm` and
 `sched` lines). `plim`: the value the limit cell holds according to the accepted traces so far (`none` once a trace was
@@ -413,8 +577,9 @@ def machineT : Machine where
     | "manual" :: what :: rest =>
         if what = "sched" ∨ what = "warm" then
           if d.1.min > d.1.max then ((r.1, plim), r.2) else
-          let v := traceVerdict d.1 plim ((parseKv rest).str "@tr" "-")
-          ((r.1, v.2), r.2 ++ [Ev.raw v.1])
+          let nth := if what = "warm" then 1 else d.2.progs.length
+          let v := traceReport d.1 plim nth ((parseKv rest).str "@tr" "-")
+          ((r.1, v.2), r.2 ++ v.1.map Ev.raw)
         else ((r.1, plim), r.2)
     | _ => ((r.1, plim), r.2)
   now := fun _ => 0
